@@ -11,7 +11,7 @@ import (
 type BatchHeader struct {
 	OID        OID
 	ObjectType ObjectType
-	ObjectSize counts.Count32
+	ObjectSize counts.Count64
 }
 
 var missingHeader = BatchHeader{
@@ -35,13 +35,13 @@ func ParseBatchHeader(spec string, header string) (BatchHeader, error) {
 		return missingHeader, err
 	}
 
-	size, err := strconv.ParseUint(words[2], 10, 0)
+	size, err := strconv.ParseUint(words[2], 10, 64)
 	if err != nil {
 		return missingHeader, err
 	}
 	return BatchHeader{
 		OID:        oid,
 		ObjectType: ObjectType(words[1]),
-		ObjectSize: counts.NewCount32(size),
+		ObjectSize: counts.NewCount64(size),
 	}, nil
 }
